@@ -120,6 +120,10 @@ def gen_program(rng, stream):
     if chance(0.45):
         add(k='sessf')
     if chance(0.3):
+        add(k='csrfstore')        # default-phase writer read at REQUEST time by every CSRF-checked view
+    if chance(0.2):
+        add(k='respf')            # response factory: read at request time (request.response)
+    if chance(0.3):
         add(k='reqf')
     rnames = []
     if chance(0.3):
@@ -186,6 +190,10 @@ def gen_program(rng, stream):
             add(k='view', kind=kind)
             if kind == 'notfound' and chance(0.4):
                 S[-1]['aslash'] = True       # add_notfound_view(append_slash=True): the wrapped view is derived at the statement
+                if chance(0.5):
+                    # ... with a renderer NAME: the helper is bound at the statement, the factory looked up when it renders
+                    S[-1]['renderer'] = rng.choice(['json', 'string'] + (['tagr'] if 'tagr' in rnames else []))
+                    S[-1]['ret'] = 'dict'
     if chance(0.3):
         add(k='view', name='boom', ret='raise')
     # ordinary views
@@ -366,6 +374,7 @@ def probes_for(rng, S, rootprefix=None):
             paths.append('/api')
     paths = sorted(set(paths))
     queries = ['', 'a=1', 'b=1', 'a=1&b=1&vp=*&vq=*&rp=1', 'vp=1&vq=1', 'vp=2&rp=1']
+    has_store = any(st['k'] == 'csrfstore' for st in S)
     out = []
     for p in paths:
         out.append(['GET', p, '', None, None])
@@ -381,7 +390,10 @@ def probes_for(rng, S, rootprefix=None):
         for _ in range(3):
             m = rng.choice(['GET', 'GET', 'POST'])
             out.append([m, p, rng.choice(queries), rng.choice([None, 'p1', 'p1', 'p2']),
-                        rng.choice([None, 'tok']) if m == 'POST' else None])
+                        rng.choice([None, 'tok', 'ctok'] if has_store else [None, 'tok']) if m == 'POST' else None])
+        if has_store or any(st['k'] == 'csrf' or st.get('csrf') for st in S):
+            out.append(['POST', p, 'a=1&b=1&vp=*&vq=*&rp=1', 'p1', 'tok'])
+            out.append(['POST', p, 'a=1&b=1&vp=*&vq=*&rp=1', 'p1', 'ctok'])
     seen = []
     for p in out:
         if p not in seen:
